@@ -65,7 +65,7 @@ func buildDefaultMaps(s *seedSet) *psMaps {
 	m := &psMaps{avcSPS: map[uint32]*avc.SPS{}, avcPPS: map[uint32]*avc.PPS{}, hevcSPS: map[uint32]*hevc.SPS{}, hevcPPS: map[uint32]*hevc.PPS{}}
 	var as []*avc.SPS
 	for _, sd := range s.kind("avc-sps") {
-		if sps, err := avc.ParseSPSNALUnit(sd.b, true); err == nil && sps != nil {
+		if sps := setupAVCSPS(sd.b); sps != nil {
 			as = append(as, sps)
 			if sps.VUI != nil && (sps.VUI.NalHrdParameters != nil || sps.VUI.VclHrdParameters != nil) && len(m.avcSEISPS) < 6 {
 				m.avcSEISPS = append(m.avcSEISPS, sps)
@@ -100,7 +100,7 @@ func buildDefaultMaps(s *seedSet) *psMaps {
 	}
 	var ap []*avc.PPS
 	for _, sd := range s.kind("avc-pps") {
-		if pps, err := avc.ParsePPSNALUnit(sd.b, m.avcSPS); err == nil && pps != nil {
+		if pps := setupAVCPPS(sd.b, m.avcSPS); pps != nil {
 			ap = append(ap, pps)
 		}
 	}
@@ -113,7 +113,7 @@ func buildDefaultMaps(s *seedSet) *psMaps {
 	}
 	var hs []*hevc.SPS
 	for _, sd := range s.kind("hevc-sps") {
-		if sps, err := hevc.ParseSPSNALUnit(sd.b); err == nil && sps != nil {
+		if sps := setupHEVCSPS(sd.b); sps != nil {
 			hs = append(hs, sps)
 		}
 	}
@@ -126,7 +126,7 @@ func buildDefaultMaps(s *seedSet) *psMaps {
 	}
 	var hp []*hevc.PPS
 	for _, sd := range s.kind("hevc-pps") {
-		if pps, err := hevc.ParsePPSNALUnit(sd.b, m.hevcSPS); err == nil && pps != nil {
+		if pps := setupHEVCPPS(sd.b, m.hevcSPS); pps != nil {
 			hp = append(hp, pps)
 		}
 	}
@@ -174,6 +174,9 @@ type chainDetail struct {
 	Kind  string `json:"hostile_kind,omitempty"`  // avc-sps avc-pps hevc-sps hevc-pps
 	Field string `json:"hostile_field,omitempty"` // syntax element that starts at the forced position (ref streams)
 	Flip  bool   `json:"bit_flip,omitempty"`      // the mutation is a single-bit flip, not a forced ue(v)
+	// Struct (ps-struct): PS[0] is a parameter set that is hostile by construction, PS[1] its benign partner; the dependent units always run
+	// (with the real sets as fallback for what the library rejects).
+	Struct bool `json:"structural,omitempty"`
 }
 
 type witness struct {
